@@ -46,6 +46,11 @@ def apply_op(lab, op, **runkw):
     elif k == "cp":
         if _isreg(lab, op[1], op[2]):
             lab.cp(op[1], op[2], op[3], op[4])
+    elif k == "dupdata":
+        # a new file (new name, fresh time-stamp: never taken for a copy) holding exactly the bytes of an existing one
+        if _isreg(lab, op[1], op[2]):
+            data = lab.read(op[1], op[2])
+            lab.write(op[3], op[4], data, file_mtime_ns(op[4], len(data), 77))
     elif k == "touch":
         if _isreg(lab, op[1], op[2]):
             st = os.lstat(lab.p(op[1], op[2]))
